@@ -39,8 +39,8 @@ ASSUMPTIONS = [
     "the simulated clock / file mtimes are owned by the harness",
 ]
 BOUNDS = {
-    "quick": {"coarse": "all interleavings (2 threads; lru harness bound 3), bound 2 (3 threads)", "fine_preemption_bound": 1, "threads": "2-3"},
-    "thorough": {"coarse": "all interleavings (2 threads; lru harness bound 5), bound 3 (3 threads)", "fine_preemption_bound": "2 (lookup harnesses), 1 (render / compile harnesses)", "threads": "2-3"},
+    "quick": {"first_use": "2 threads rendering escaping filters / htmlentityreplace output on a freshly imported library per execution, every line of filters.py and util.py a scheduling point, preemption bound 1", "coarse": "all interleavings (2 threads; lru harness bound 3), bound 2 (3 threads)", "fine_preemption_bound": 1, "threads": "2-3"},
+    "thorough": {"first_use": "as quick with bound 2, and 3 threads with bound 1", "coarse": "all interleavings (2 threads; lru harness bound 5), bound 3 (3 threads)", "fine_preemption_bound": "2 (lookup harnesses), 1 (render / compile harnesses)", "threads": "2-3"},
 }
 READY = True
 PIN_CPUS = True  # baton hand-offs between the threads of one worker stay on one core
